@@ -19,7 +19,8 @@ Print Assumptions C14_no_duplicates.
 
 (* the guarded agreement.  Guard = the property's quantifier, as an executable boolean:
    every ServoDecl is a top-level node of setup_body or loop_body, every LCDDecl a top-level
-   node of setup_body, and no LCD variable is bound to both interfaces *)
+   node of setup_body.  (The former third clause "no LCD variable is bound to both interfaces"
+   is gone: finding F-C14-lcd-rebind is repaired.) *)
 Theorem C14_agree_partial : forall p : prog,
   decls_at_documented_positions p = true ->
   required p = includes p /\ includes p = instantiated p.
@@ -95,20 +96,61 @@ Theorem C14_lcd_in_loop_refuted :
 Proof. exact lcd_in_loop_refuted. Qed.
 Print Assumptions C14_lcd_in_loop_refuted.
 
-(* INSIDE the quantifier's positions (finding F-C14-lcd-rebind): one LCD variable bound to a
-   parallel and then to an I2C display before the loop - LiquidCrystal_I2C is requested but
-   neither included nor instantiated *)
-Theorem C14_lcd_rebind_refuted :
-  exists p, servos_documented p = true /\ lcds_documented p = true /\
-            required p = [LLiquidCrystal; LLiquidCrystalI2C] /\
-            includes p = [LLiquidCrystal] /\ instantiated p = [LLiquidCrystal].
-Proof. exact lcd_rebind_refuted. Qed.
-Print Assumptions C14_lcd_rebind_refuted.
+(* the region the repaired finding F-C14-lcd-rebind used to exclude - one LCD variable bound to
+   a parallel and to an I2C display before the loop - lies inside the agreement (this theorem
+   replaces C14_lcd_rebind_refuted, which held on the tree before the repair) *)
+Theorem C14_lcd_rebind_agree : forall p : prog,
+  servos_documented p = true -> lcds_documented p = true ->
+  lcd_names_consistent (setup p) = false ->
+  required p = includes p /\ includes p = instantiated p.
+Proof. exact lcd_rebind_agree. Qed.
+Print Assumptions C14_lcd_rebind_agree.
+
+(* its hypotheses are satisfiable: the witness of the finding (lcd = LCD(rs=..); lcd = LCD(i2c_addr=..)),
+   for which both libraries are now requested, included and instantiated - two objects *)
+Example C14_lcd_rebind_nonvacuous :
+  let p := mkProg [NLcdPar 0; NLcdI2c 0; NPlain] [] [] [] in
+  servos_documented p = true /\ lcds_documented p = true /\
+  lcd_names_consistent (setup p) = false /\
+  required p = [LLiquidCrystal; LLiquidCrystalI2C] /\
+  headers p = [HLiquidCrystal; HWire; HLiquidCrystalI2C] /\
+  instantiated p = [LLiquidCrystal; LLiquidCrystalI2C] /\
+  lcd_objs p = [mkObj false 0 0; mkObj true 0 1].
+Proof. exact lcd_rebind_nonvacuous. Qed.
+Print Assumptions C14_lcd_rebind_nonvacuous.
+
+(* every LCD declaration before the main loop defines an object of the class of its interface
+   (also when its name was declared before), and no two objects share an identifier *)
+Theorem C14_lcd_object_per_declaration : forall p : prog,
+  map obj_decl (lcd_objs p) = lcd_decls (setup p) /\
+  NoDup (map obj_ident (lcd_objs p)).
+Proof. exact lcd_object_per_declaration. Qed.
+Print Assumptions C14_lcd_object_per_declaration.
+
+(* the binding index of that object is the number of earlier declarations of the same name *)
+Theorem C14_lcd_binding_index : forall (p : prog) (pre post : list node) (x : Z),
+  setup p = pre ++ NLcdPar x :: post \/ setup p = pre ++ NLcdI2c x :: post ->
+  exists i2c, In (mkObj i2c x (count x (lcd_names pre))) (lcd_objs p) /\
+              (i2c = true <-> setup p = pre ++ NLcdI2c x :: post).
+Proof. exact lcd_binding_index. Qed.
+Print Assumptions C14_lcd_binding_index.
+
+(* header included  <->  a declaration needing it is a top-level statement of the scanned
+   bodies: unconditionally (every declaration counts, not only the first of a name) *)
+Theorem C14_includes_iff_top : forall (p : prog) (l : lib),
+  In l (includes p) <->
+  match l with
+  | LServo => existsb is_servo (setup p) = true \/ existsb is_servo (loop p) = true
+  | LLiquidCrystal => existsb is_par (setup p) = true
+  | LLiquidCrystalI2C => existsb is_i2c (setup p) = true
+  end.
+Proof. exact includes_iff_top. Qed.
+Print Assumptions C14_includes_iff_top.
 
 (* non-vacuity: the guard is satisfied by a program with three servos (two before the loop,
    one in the loop body after other statements), two parallel and one I2C LCD, a re-declared
-   LCD name with the same interface, other devices, nested control flow and a function;
-   all three libraries are then requested, included and instantiated *)
+   LCD name with the same interface (a second object, binding index 1), other devices, nested
+   control flow and a function; all three libraries are then requested, included and instantiated *)
 Example C14_guard_nonvacuous :
   let p := mkProg
     [NOtherDecl; NServo 0; NLcdPar 1; NServo 2; NLcdI2c 3; NLcdPar 4; NLcdPar 1;
@@ -120,7 +162,7 @@ Example C14_guard_nonvacuous :
   required p = [LServo; LLiquidCrystal; LLiquidCrystalI2C] /\
   headers p = [HServo; HLiquidCrystal; HWire; HLiquidCrystalI2C] /\
   servo_objs p = [0; 2; 5] /\
-  lcd_objs p = [(false, 1); (true, 3); (false, 4)].
+  lcd_objs p = [mkObj false 1 0; mkObj true 3 0; mkObj false 4 0; mkObj false 1 1].
 Proof. exact guard_nonvacuous. Qed.
 Print Assumptions C14_guard_nonvacuous.
 
